@@ -291,7 +291,7 @@ var opsByMode = map[string][]string{
 	"C15": {"Mask", "Mask", "Mask", "MaskOccurences", "MaskOccurences", "MaskUnique", "Clone"},
 	"C14": {"MaxCharStats", "MaxCharStats", "Consensus", "Consensus", "CharStats", "CharStatsSite", "CharStatsSeq", "UniqueCharacters", "Entropy", "Entropy",
 		"NbVariableSites", "InformativeSites", "AvgAllelesPerSite", "Pssm", "CountDifferences", "NumGapsUnique", "NumMutationsUnique",
-		"NumMutRef", "ListMutRef", "CountProfile", "SetSequenceChar", "SiteConservation", "SiteConservation", "AlphabetInfo"},
+		"NumMutRef", "ListMutRef", "CountProfile", "ProfileOnly", "ProfileOnly", "SetSequenceChar", "SiteConservation", "SiteConservation", "AlphabetInfo"},
 	"C10": {"ShuffleSequences", "ShuffleSites", "Swap", "SimulateRogue", "BuildBootstrap", "Sample", "RandSubAlign", "RandSubAlign", "Mutate",
 		"AddGaps", "Recombine", "Rarefy"},
 	"C19": {"Clone", "CloneSeqBag", "SubAlign", "SelectSites", "Transpose", "BuildBootstrap", "Consensus", "RandSubAlign", "Unalign", "Sample",
@@ -446,6 +446,11 @@ func (g *heapGen) args(h *heapRun, op string, recv int, o *obj) *Step {
 			return nil
 		}
 		a["z"] = f64(0)
+	case "ProfileOnly":
+		if !needAl() || n == 0 || L < 0 {
+			return nil
+		}
+		a["c"] = f64(int(g.pick([]byte("AaCQN-X*TG"))))
 	case "CountDifferences":
 		if !needAl() || n == 0 {
 			return nil
